@@ -49,7 +49,7 @@ var c14HookOnce sync.Once
 func c14SharedHook(r *Run) string {
 	p := filepath.Join(r.Scratch, "c14-hook.sh")
 	c14HookOnce.Do(func() {
-		_ = os.WriteFile(p, []byte(c14HookScript), 0o755)
+		_ = writeScript(p, []byte(c14HookScript), 0o755)
 		_ = os.WriteFile(filepath.Join(r.Scratch, "c14-ca.crt"), []byte("not a certificate: only read into CABundle\n"), 0o644)
 	})
 	return p
